@@ -49,6 +49,7 @@ let eval (input : Sx.t) (obs : Sx.t) : Sx.t list * bool * bool * string =
         && (match l with a :: b :: _ -> int_of_n a = 47 && int_of_n b <> 47 | [a] -> int_of_n a = 47 | [] -> false)
         && not (List.exists (fun c -> c = str_of_hex "x2e2e") comps)
     | _ -> false) (Sx.args obs) in
-  let cls = (match r1 with SPass -> "pass" | SRedirect _ -> "redirect" | SServe _ -> "serve" | SNotModified _ -> "notmodified") in
+  let defdir = (match Sx.field_opt "defdir" input with Some d -> bool_of (List.hd (Sx.args d)) | None -> false) in
+  let cls = (if defdir then "default-directory/" else "") ^ (match r1 with SPass -> "pass" | SRedirect _ -> "redirect" | SServe _ -> "serve" | SNotModified _ -> "notmodified") in
   let traversal = List.exists (fun c -> c = str_of_hex "x2e2e") (Router.split_slash [] p) in
   (model, spec, (match r1 with SPass -> traversal | _ -> true), cls)
